@@ -29,6 +29,10 @@
 #endif
 #define RD_OK(r) (__CPROVER_is_fresh(r, sizeof(StringReader)) && (r)->length <= RD_MAX && \
                   __CPROVER_is_fresh((r)->data, (r)->length) && verif_exc == 0 && (r)->length == g_len && (r)->offset == g_off)
+/* the same facts as separate requires clauses (is_fresh is only reliable as a clause of its own when a contract *replaces* a call) */
+#define RD_REQ(r) __CPROVER_requires(__CPROVER_is_fresh(r, sizeof(StringReader))) __CPROVER_requires((r)->length <= RD_MAX) \
+                  __CPROVER_requires(__CPROVER_is_fresh((r)->data, (r)->length)) \
+                  __CPROVER_requires(verif_exc == 0 && (r)->length == g_len && (r)->offset == g_off)
 #define THROWS_OOR(cond_ok) ((cond_ok) ? verif_exc == 0 : verif_exc == EXC_out_of_range)
 /* numerals at an address, 24/48 bit */
 #define DEC_BE24(p) ((MEMB(p,0) << 16) | (MEMB(p,1) << 8) | MEMB(p,2))
@@ -39,14 +43,14 @@
 #define SEXT48(u) ((int64_t)(((u) & 0x800000000000ull) ? ((u) | 0xFFFF000000000000ull) : (u)))
 
 const void* StringReader_pgetv(const StringReader* self, size_t offset, size_t size)
-__CPROVER_requires(RD_OK(self))
+RD_REQ(self)
 E02(THROWS_OOR(INR(offset, size, self->length)))
 E02(INR(offset, size, self->length) ==> __CPROVER_return_value == self->data + offset)
 E01(verif_exc == 0 ==> __CPROVER_return_value == self->data + offset)
 __CPROVER_assigns(verif_exc);
 
 const void* StringReader_getv(StringReader* self, size_t size, bool advance)
-__CPROVER_requires(RD_OK(self))
+RD_REQ(self)
 E02(THROWS_OOR(INR(__CPROVER_old(self->offset), size, self->length)))
 E02(verif_exc == 0 ==> __CPROVER_return_value == self->data + __CPROVER_old(self->offset))
 E02(verif_exc != 0 ==> self->offset == __CPROVER_old(self->offset))
@@ -57,13 +61,13 @@ __CPROVER_assigns(verif_exc, self->offset);
 
 #define PGETN(name, T, N, DEC) \
 T StringReader_##name(const StringReader* self, size_t offset) \
-__CPROVER_requires(RD_OK(self)) \
+RD_REQ(self) \
 E02(THROWS_OOR(INR(offset, N, self->length))) \
 E01(verif_exc == 0 ==> __CPROVER_return_value == (T)DEC(self->data + offset)) \
 __CPROVER_assigns(verif_exc);
 #define GETN(name, T, N, DEC) \
 T StringReader_##name(StringReader* self, bool advance) \
-__CPROVER_requires(RD_OK(self)) \
+RD_REQ(self) \
 E02(THROWS_OOR(INR(__CPROVER_old(self->offset), N, self->length))) \
 E02(verif_exc != 0 ==> self->offset == __CPROVER_old(self->offset)) \
 E02(__CPROVER_old(self->offset) <= self->length ==> self->offset <= self->length) \
@@ -84,28 +88,28 @@ GETN(get_s24b, int32_t, 3, S24B) GETN(get_s24l, int32_t, 3, S24L)
 GETN(get_s48b, int64_t, 6, S48B) GETN(get_s48l, int64_t, 6, S48L)
 
 size_t StringReader_where(const StringReader* self)
-__CPROVER_requires(RD_OK(self)) __CPROVER_ensures(__CPROVER_return_value == self->offset) __CPROVER_assigns();
+RD_REQ(self) __CPROVER_ensures(__CPROVER_return_value == self->offset) __CPROVER_assigns();
 size_t StringReader_size(const StringReader* self)
-__CPROVER_requires(RD_OK(self)) __CPROVER_ensures(__CPROVER_return_value == self->length) __CPROVER_assigns();
+RD_REQ(self) __CPROVER_ensures(__CPROVER_return_value == self->length) __CPROVER_assigns();
 size_t StringReader_remaining(const StringReader* self)
-__CPROVER_requires(RD_OK(self))
+RD_REQ(self)
 __CPROVER_ensures(self->offset <= self->length ==> __CPROVER_return_value == self->length - self->offset)
 __CPROVER_ensures(self->offset <= self->length ==> __CPROVER_return_value <= self->length)   /* no underflow while the cursor is inside */
 __CPROVER_assigns();
 bool StringReader_eof(const StringReader* self)
-__CPROVER_requires(RD_OK(self)) __CPROVER_ensures(__CPROVER_return_value == (self->offset >= self->length)) __CPROVER_assigns();
+RD_REQ(self) __CPROVER_ensures(__CPROVER_return_value == (self->offset >= self->length)) __CPROVER_assigns();
 void StringReader_go(StringReader* self, size_t offset)
-__CPROVER_requires(RD_OK(self)) __CPROVER_ensures(self->offset == offset) __CPROVER_assigns(self->offset);
+RD_REQ(self) __CPROVER_ensures(self->offset == offset) __CPROVER_assigns(self->offset);
 
 void StringReader_truncate(StringReader* self, size_t new_size)
-__CPROVER_requires(RD_OK(self))
+RD_REQ(self)
 __CPROVER_ensures(new_size <= __CPROVER_old(self->length) ? (verif_exc == 0 && self->length == new_size)
                                                           : (verif_exc == EXC_invalid_argument && self->length == __CPROVER_old(self->length)))
 __CPROVER_assigns(verif_exc, self->length);
 
 /* skip: moves the cursor by `bytes` when that stays inside the data; otherwise clamps the cursor to the end and throws */
 void StringReader_skip(StringReader* self, size_t bytes)
-__CPROVER_requires(RD_OK(self))
+RD_REQ(self)
 E02(THROWS_OOR(INR(__CPROVER_old(self->offset), bytes, self->length)))
 E02(verif_exc == 0 ==> self->offset == __CPROVER_old(self->offset) + bytes)
 E02(verif_exc != 0 ==> self->offset == self->length)
@@ -113,7 +117,7 @@ E01(verif_exc == 0 ==> self->offset == __CPROVER_old(self->offset) + bytes)
 __CPROVER_assigns(verif_exc, self->offset);
 
 const char* StringReader_peek(StringReader* self, size_t size)
-__CPROVER_requires(RD_OK(self))
+RD_REQ(self)
 E02(THROWS_OOR(INR(self->offset, size, self->length)))
 E02(verif_exc == 0 ==> __CPROVER_return_value == (const char*)(self->data + self->offset))
 E01(verif_exc == 0 ==> __CPROVER_return_value == (const char*)(self->data + self->offset))
@@ -121,7 +125,7 @@ __CPROVER_assigns(verif_exc);
 
 /* skip_if: consumes `size` bytes iff they are available and equal to `data`; with the cursor inside it never throws */
 bool StringReader_skip_if(StringReader* self, const void* data, size_t size)
-__CPROVER_requires(RD_OK(self) && size <= VERIF_MAXLEN && __CPROVER_is_fresh(data, size))
+RD_REQ(self) __CPROVER_requires(size <= VERIF_MAXLEN) __CPROVER_requires(__CPROVER_is_fresh(data, size))
 __CPROVER_requires(self->offset <= self->length)
 E02(verif_exc == 0)
 E02(__CPROVER_return_value ==> (INR(__CPROVER_old(self->offset), size, self->length) && self->offset == __CPROVER_old(self->offset) + size))
@@ -134,20 +138,20 @@ __CPROVER_assigns(verif_exc, self->offset);
 /* clamping reads into a caller buffer of `size` bytes */
 #define CLAMPN(off, n, len) ((off) >= (len) ? 0 : ((n) <= (len) - (off) ? (n) : (len) - (off)))
 size_t StringReader_pread_buf(const StringReader* self, size_t offset, void* data, size_t size)
-__CPROVER_requires(RD_OK(self) && size <= VERIF_MAXLEN && __CPROVER_is_fresh(data, size))
+RD_REQ(self) __CPROVER_requires(size <= VERIF_MAXLEN) __CPROVER_requires(__CPROVER_is_fresh(data, size))
 E02(verif_exc == 0 && __CPROVER_return_value == CLAMPN(offset, size, self->length))
 E01(__CPROVER_return_value == CLAMPN(offset, size, self->length))
 E01(g_mk < __CPROVER_return_value ==> ((const uint8_t*)data)[g_mk] == self->data[offset + g_mk])
 __CPROVER_assigns(__CPROVER_object_whole(data));
 
 void StringReader_preadx_buf(const StringReader* self, size_t offset, void* data, size_t size)
-__CPROVER_requires(RD_OK(self) && size <= VERIF_MAXLEN && __CPROVER_is_fresh(data, size))
+RD_REQ(self) __CPROVER_requires(size <= VERIF_MAXLEN) __CPROVER_requires(__CPROVER_is_fresh(data, size))
 E02(THROWS_OOR(INR(offset, size, self->length) && offset < self->length))   /* the code also rejects offset == length with size 0 */
 E01(verif_exc == 0 ==> (g_mk < size ==> ((const uint8_t*)data)[g_mk] == self->data[offset + g_mk]))
 __CPROVER_assigns(verif_exc, __CPROVER_object_whole(data));
 
 size_t StringReader_read_buf(StringReader* self, void* data, size_t size, bool advance)
-__CPROVER_requires(RD_OK(self) && size <= VERIF_MAXLEN && __CPROVER_is_fresh(data, size))
+RD_REQ(self) __CPROVER_requires(size <= VERIF_MAXLEN) __CPROVER_requires(__CPROVER_is_fresh(data, size))
 E02(verif_exc == 0 && __CPROVER_return_value == CLAMPN(__CPROVER_old(self->offset), size, self->length))
 E02(__CPROVER_old(self->offset) <= self->length ==> self->offset <= self->length)
 E01(self->offset == __CPROVER_old(self->offset) + (advance ? __CPROVER_return_value : 0))
@@ -155,7 +159,7 @@ E01(g_mk < __CPROVER_return_value ==> ((const uint8_t*)data)[g_mk] == self->data
 __CPROVER_assigns(self->offset, __CPROVER_object_whole(data));
 
 void StringReader_readx_buf(StringReader* self, void* data, size_t size, bool advance)
-__CPROVER_requires(RD_OK(self) && size <= VERIF_MAXLEN && __CPROVER_is_fresh(data, size))
+RD_REQ(self) __CPROVER_requires(size <= VERIF_MAXLEN) __CPROVER_requires(__CPROVER_is_fresh(data, size))
 E02(THROWS_OOR(INR(__CPROVER_old(self->offset), size, self->length) && __CPROVER_old(self->offset) < self->length))
 E02(verif_exc != 0 ==> self->offset == __CPROVER_old(self->offset))
 E02(__CPROVER_old(self->offset) <= self->length ==> self->offset <= self->length)
@@ -168,44 +172,44 @@ __CPROVER_assigns(verif_exc, self->offset, __CPROVER_object_whole(data));
 #define SUB_EMPTY(ret) ((ret)->length == 0 && (ret)->offset == 0)
 #define RET_OK __CPROVER_is_fresh(ret, sizeof(*ret))
 void StringReader_sub1(const StringReader* self, StringReader* ret, size_t offset)
-__CPROVER_requires(RD_OK(self) && RET_OK)
+RD_REQ(self) __CPROVER_requires(RET_OK)
 __CPROVER_ensures(verif_exc == 0)
 __CPROVER_ensures(offset <= self->length ? SUB_IS(ret, self, offset, self->length - offset) : SUB_EMPTY(ret))
 __CPROVER_assigns(__CPROVER_object_whole(ret));
 void StringReader_sub2(const StringReader* self, StringReader* ret, size_t offset, size_t size)
-__CPROVER_requires(RD_OK(self) && RET_OK)
+RD_REQ(self) __CPROVER_requires(RET_OK)
 __CPROVER_ensures(verif_exc == 0)
 __CPROVER_ensures(offset < self->length ? SUB_IS(ret, self, offset, CLAMPN(offset, size, self->length)) : SUB_EMPTY(ret))
 __CPROVER_assigns(__CPROVER_object_whole(ret));
 void StringReader_subx1(const StringReader* self, StringReader* ret, size_t offset)
-__CPROVER_requires(RD_OK(self) && RET_OK)
+RD_REQ(self) __CPROVER_requires(RET_OK)
 __CPROVER_ensures(THROWS_OOR(offset <= self->length))
 __CPROVER_ensures(verif_exc == 0 ==> SUB_IS(ret, self, offset, self->length - offset))
 __CPROVER_assigns(verif_exc, __CPROVER_object_whole(ret));
 void StringReader_subx2(const StringReader* self, StringReader* ret, size_t offset, size_t size)
-__CPROVER_requires(RD_OK(self) && RET_OK)
+RD_REQ(self) __CPROVER_requires(RET_OK)
 __CPROVER_ensures(THROWS_OOR(INR(offset, size, self->length)))
 __CPROVER_ensures(verif_exc == 0 ==> SUB_IS(ret, self, offset, size))
 __CPROVER_assigns(verif_exc, __CPROVER_object_whole(ret));
 /* bit sub-readers: length in bits */
 #define SUBB_IS(ret, self, off, n) ((ret)->data == (self)->data + (off) && (ret)->length == (n) * 8 && (ret)->offset == 0)
 void StringReader_sub_bits1(const StringReader* self, BitReader* ret, size_t offset)
-__CPROVER_requires(RD_OK(self) && RET_OK)
+RD_REQ(self) __CPROVER_requires(RET_OK)
 __CPROVER_ensures(verif_exc == 0)
 __CPROVER_ensures(offset <= self->length ? SUBB_IS(ret, self, offset, self->length - offset) : SUB_EMPTY(ret))
 __CPROVER_assigns(__CPROVER_object_whole(ret));
 void StringReader_sub_bits2(const StringReader* self, BitReader* ret, size_t offset, size_t size)
-__CPROVER_requires(RD_OK(self) && RET_OK)
+RD_REQ(self) __CPROVER_requires(RET_OK)
 __CPROVER_ensures(verif_exc == 0)
 __CPROVER_ensures(offset < self->length ? SUBB_IS(ret, self, offset, CLAMPN(offset, size, self->length)) : SUB_EMPTY(ret))
 __CPROVER_assigns(__CPROVER_object_whole(ret));
 void StringReader_subx_bits1(const StringReader* self, BitReader* ret, size_t offset)
-__CPROVER_requires(RD_OK(self) && RET_OK)
+RD_REQ(self) __CPROVER_requires(RET_OK)
 __CPROVER_ensures(THROWS_OOR(offset <= self->length))
 __CPROVER_ensures(verif_exc == 0 ==> SUBB_IS(ret, self, offset, self->length - offset))
 __CPROVER_assigns(verif_exc, __CPROVER_object_whole(ret));
 void StringReader_subx_bits2(const StringReader* self, BitReader* ret, size_t offset, size_t size)
-__CPROVER_requires(RD_OK(self) && RET_OK)
+RD_REQ(self) __CPROVER_requires(RET_OK)
 __CPROVER_ensures(THROWS_OOR(INR(offset, size, self->length)))
 __CPROVER_ensures(verif_exc == 0 ==> SUBB_IS(ret, self, offset, size))
 __CPROVER_assigns(verif_exc, __CPROVER_object_whole(ret));
